@@ -32,11 +32,11 @@ ASSUMPTIONS = ["a crash leaves a byte prefix of the file (append-only stream)",
                "record contents range over a finite family; offsets are exhaustive"]
 REQUIRED_CLASSES = ['offset-in-metadata', 'offset-on-record-boundary', 'offset-inside-numpy-payload', 'offset-last-byte',
                     'open-raises', 'iteration-raises', 'clean-end-after-prefix', 'yields-some-then-raises-or-ends',
-                    'full-file']
+                    'full-file', 'record-with-thousands-of-fits', 'same-source-twice']
 TIMEOUT = {'quick': 300, 'thorough': 900}
 
-KINDS_QUICK = ['f0', 'f1m', 'f3m', 'f3', 'f1L', 'f3mx']
-KINDS_ALL = ['f0', 'f0m', 'f1', 'f1m', 'f3', 'f3m', 'f1L', 'f3mL', 'f3mx', 'f3x', 'f0L', 'f1mL']
+KINDS_QUICK = ['f0', 'f1m', 'f3m', 'f3', 'f1L', 'f3mx', 'f1D']          # D: same source as the record before it
+KINDS_ALL = ['f0', 'f0m', 'f1', 'f1m', 'f3', 'f3m', 'f1L', 'f3mL', 'f3mx', 'f3x', 'f0L', 'f1mL', 'f1D', 'f3mD']
 
 
 def setup(tier, seed):
@@ -68,17 +68,24 @@ def setup(tier, seed):
         data = open(p, 'rb').read()
         meta_end = _first_openable(data, os.path.join(d, 'probe.fitinfo'))
         meta_sha = hashlib.sha1(data[:meta_end]).hexdigest()
-    return {'tier': tier, 'seed': seed, 'files': files, 'kinds': kinds, 'meta_sha': meta_sha, 'meta_end': meta_end}
+    return {'tier': tier, 'seed': seed, 'files': files, 'kinds': kinds, 'meta_sha': meta_sha, 'meta_end': meta_end, 'big_parts': 32}
 
 
 def cases(ctx):
     for i, seq in enumerate(ctx['files']):
         yield {'file': i, 'seq': seq}
+    # one file with a record of thousands of fits between two small ones (every per-fit array >= 64 kB); its offsets
+    # are spread over several cases
+    # (quick tier: the complete file and every offset in the last eighth of it -- the end of the big record and the record
+    # after it; thorough tier: every offset)
+    parts = range(ctx['big_parts']) if ctx['tier'] == 'thorough' else [0] + list(range(ctx['big_parts'] - 4, ctx['big_parts']))
+    for part in parts:
+        yield {'file': 10000, 'seq': ['f1m', 'big', 'f3'], 'part': [part, ctx['big_parts']], 'only_full': (ctx['tier'] != 'thorough' and part == 0)}
 
 
 def evidence_extra(ctx):
     return {'bounds': '%d files (all sequences of length 1..2 over %d record kinds + %d covering sequences of length 3..4); '
-                      'every truncation offset of each' % (len(ctx['files']), len(ctx['kinds']), len(ctx['files']) - len(ctx['kinds']) - len(ctx['kinds']) ** 2),
+                      'every truncation offset of each; plus one file with an 8192-fit record (every offset in the thorough tier, the last eighth of the file in the quick tier)' % (len(ctx['files']), len(ctx['kinds']), len(ctx['files']) - len(ctx['kinds']) - len(ctx['kinds']) ** 2),
             'alphabet_digest': 'kinds=%s seed=%d' % (ctx['kinds'], ctx['seed'])}
 
 
@@ -98,12 +105,15 @@ def _record(kind, idx, meta):
     from sedfitter.fit_info import FitInfo
     from sedfitter.source import Source
     s = Source()
-    s.name = ('source_with_a_rather_long_name_%02d' % idx) if 'L' in kind else 's%d' % idx
-    s.x = 10.25 + idx
-    s.y = -0.5 * idx
+    sidx = max(idx - 1, 0) if 'D' in kind else idx         # 'D': the very same source as the previous record (e.g. a source fitted twice)
+    s.name = ('source_with_a_rather_long_name_%02d' % sidx) if 'L' in kind else 's%d' % sidx
+    s.x = 10.25 + sidx
+    s.y = -0.5 * sidx
     s.valid = np.array([1, 4, 3])
-    s.flux = np.array([1.5 + idx, 0.25, 7.0])
+    s.flux = np.array([1.5 + sidx, 0.25, 7.0])
     s.error = np.array([0.1, 0.05, 0.9])
+    if kind == 'big':
+        return _big_record(s, idx, meta)
     n = int(kind[1])
     i = FitInfo(s)
     i.chi2 = np.array([0.5, 2.5, 1e30][:n]) + idx
@@ -119,6 +129,10 @@ def _record(kind, idx, meta):
     i.model_fluxes = (np.arange(n * 3, dtype=float).reshape(n, 3) + 0.5 * idx) if 'm' in kind else None
     i.meta.model_dir, i.meta.filters, i.meta.extinction_law = meta
     return i
+
+
+def big_file_hint(case):
+    return False
 
 
 def _first_openable(data, path):
@@ -158,6 +172,23 @@ def _record_ends(records, d, data):
     return ends
 
 
+N_BIG = 8192          # 8192 fits: every per-fit float64 / int64 array is exactly 64 kB
+
+
+def _big_record(s, idx, meta):
+    from sedfitter.fit_info import FitInfo
+    i = FitInfo(s)
+    n = N_BIG
+    i.chi2 = np.arange(n, dtype=float) * 0.5 + 1.0
+    i.av = (np.arange(n) % 40) * 0.25
+    i.sc = -0.001 * np.arange(n)
+    i.model_id = np.arange(n)[::-1].copy()
+    i.model_name = np.array(['%04x' % q for q in range(n)], dtype='U4')
+    i.model_fluxes = None
+    i.meta.model_dir, i.meta.filters, i.meta.extinction_law = meta
+    return i
+
+
 def _boundaries(data):
     """Offsets at which each top-level pickle ends (harness-side, independent of the reader)."""
     import io
@@ -188,6 +219,8 @@ def run_case(ctx, case, rec, d):
     from sedfitter.fit_info import FitInfoFile
     meta = _meta(d)
     records = [_record(k, i, meta) for i, k in enumerate(case['seq'])]
+    if any('D' in k for k in case['seq'][1:]):
+        rec.cls('same-source-twice')
     written = [canon(r) for r in records]
     meta_canon = canon([meta[0], meta[1], meta[2]])
     path = os.path.join(d, 'full.fitinfo')
@@ -207,7 +240,7 @@ def run_case(ctx, case, rec, d):
                 'offsets_explored': '0..%d' % len(data)})
     tpath = os.path.join(d, 'cut.fitinfo')
     start = 0
-    if case['file'] != 0 and meta_end == ctx['meta_end'] and hashlib.sha1(data[:meta_end]).hexdigest() == ctx['meta_sha']:
+    if big_file_hint(case) or case['file'] != 0 and meta_end == ctx['meta_end'] and hashlib.sha1(data[:meta_end]).hexdigest() == ctx['meta_sha']:
         start = meta_end - 16         # same bytes as file 0 below this offset: already explored there
         rec.notes['metadata-offsets-shared-with-file-0'] += start
     # a decoy: another complete file (different records) is written to the very path the truncated
@@ -222,9 +255,21 @@ def run_case(ctx, case, rec, d):
     fin.close()
     if n_decoy != len(decoy):
         rec.violation('complete-read|count', {'decoy': True}, {'read': n_decoy, 'written': len(decoy)})
-    for t in [len(data)] + list(range(start, len(data))):
+    offsets = [len(data)] + list(range(start, len(data)))
+    big = 'part' in case
+    if big:
+        lo = start + (len(data) - start) * case['part'][0] // case['part'][1]
+        hi = start + (len(data) - start) * (case['part'][0] + 1) // case['part'][1]
+        offsets = ([len(data)] if case['part'][0] == 0 else []) + ([] if case.get('only_full') else list(range(hi - 1, lo - 1, -1)))       # descending: one copy, truncated step by step
+        rec.cls('record-with-thousands-of-fits')
         with open(tpath, 'wb') as f:
-            f.write(data[:t])
+            f.write(data)
+    for t in offsets:
+        if big:
+            os.truncate(tpath, t)
+        else:
+            with open(tpath, 'wb') as f:
+                f.write(data[:t])
         complete = sum(1 for e in rec_ends if e <= t)
         got = []
         how = None
@@ -258,7 +303,7 @@ def run_case(ctx, case, rec, d):
                     pass
         rec.ev()
         rec.trans()
-        rec.state(hashlib.sha1(data[:t]).digest())       # a state is a distinct byte prefix
+        rec.state(('big', t) if big else hashlib.sha1(data[:t]).digest())       # a state is a distinct byte prefix
         rec.outcome((how, len(got)))
         # ---- oracle
         bad = None
